@@ -247,7 +247,7 @@ CHECKS = {
         "rule": "a table content (0-12 rows with colliding values: near copies of earlier rows) and a sequence of 1-4 queries (each a list of 0-4 well-typed conditions, or a sub-list of an earlier query) evaluated one after the other on the same caches and databases, after which every cache index must still agree with a scan (all eight "
                 "functions, scalar/enum/optional/set/map columns, _uuid, empty sets/maps, repeated columns, map includes on index keys) are "
                 "evaluated under 3-5 index configurations over the same columns (none; schema single/multi; client single/multi incl. "
-                "optional and map-key; mixtures). For every configuration RowCache.RowsByCondition, Database.List(conds...) and a select "
+                "optional, map-key and a two-column index containing the set column; mixtures). For every configuration RowCache.RowsByCondition, Database.List(conds...) and a select "
                 "operation must return exactly the uuids an independent evaluator of RFC 7047 5.1 returns (refdb.EvalCond), hence the "
                 "same answer under every configuration. A quarter of the rows reach their contents in two steps (created with other values in one to three columns, then updated), so that index entries have been moved before the queries run. One case in eight holds sets of 17-100 elements, and set conditions (includes, excludes, ==, !=) are built from parts of a stored set; with a schema index on s0 alone, a checked Create repeating the s0 of a cached row precedes the queries and must be refused without trace (one configuration lists a multi-column index before it). TestC08API (server + connected client monitoring everything, one index configuration per case) checks "
                 "WhereAll/WhereAny/WhereCache/Where(model)/Where(models...).List against predictions (all / any / predicate / first index, in the order uuid, "
@@ -459,7 +459,7 @@ CHECKS = {
                 "the application keeps calling Transact with deadlines shorter than the inactivity timeout - a second connection must appear within 15 s; "
                 "both end with the convergence oracle. TestC16Large: 66000 + 1200 monitored rows (more than the 65536 entries of the event buffer), two cuts with deletions and insertions meanwhile. Scripts contain transactions the client refuses itself (unknown column: nothing is sent). A scenario that does not finish because goroutines have been waiting for minutes on mutexes inside libovsdb/client is reported as reconnect.wedged. After every convergence the client indexes on T0.marker and T1.name are compared with a scan of the cache. Non-trivial = cut after the 6th message (monitor set-up begun) "
                 "resp. a parked window with foreign commits inside; distinct = (scenario, direction, k, mode) resp. (monitors, k, foreign kinds)."
-                " Scenarios contain the step 'cancel-failed' (MonitorCancel of the first established monitor; libovsdb's server does not implement it and a cut may hit it: unless the call returns nil the monitor is still one the client has to re-establish), also in the fixed scenario that is cut at every message boundary; inactivity scenarios configure the client with WithInactivityCheck alone or followed by WithReconnect with the same timeout and back-off."
+                " Scenarios contain the step 'cancel-failed' (MonitorCancel of the first established monitor; libovsdb's server does not implement it and a cut may hit it: unless the call returns nil the monitor is still one the client has to re-establish), also in the fixed scenario that is cut at every message boundary; inactivity scenarios configure the client with WithInactivityCheck alone or followed by WithReconnect with the same timeout and back-off; one sampled scenario in four hands its options to SetOption on the never-connected client instead of to the constructor."
                 " TestC16Leader: half of the clients whose first endpoint is the leader start with that endpoint alone and are told the others through UpdateEndpoints (endpoint in use first) once attached; they must follow the leadership like the others.",
         "assumptions": COMMON_ASSUMPTIONS + [
             "enumerated scenarios run without the inactivity probe so that the fault-free message sequence is the same in every run up to the cut",
